@@ -192,6 +192,28 @@ func TestC03_SignRoundTrip(t *testing.T) {
 			if err != nil {
 				t.Fatalf("valid set cannot be built through setters: %v", err)
 			}
+			if genBool.Draw(t, "refused") {
+				// setter calls that are REFUSED come before signing: the
+				// claims-set is still the valid one
+				for k := rapid.IntRange(1, 3).Draw(t, "refused.n"); k > 0; k-- {
+					o := drawSetterOp(t, p)
+					if o.modelAccepts(p) {
+						continue
+					}
+					if rerr, applicable := o.apply(c); applicable && rerr == nil {
+						t.Fatalf("C03: setter %s accepted an invalid value", o)
+					}
+				}
+				if len(m.Comps) > 0 {
+					bad := []psatoken.ISwComponent{libComp(drawComp(t, true, "refused.sw")), libComp(drawComp(t, false, "refused.bad"))}
+					if genBool.Draw(t, "refused.first") {
+						bad = bad[1:]
+					}
+					if rerr := c.SetSoftwareComponents(bad); rerr == nil {
+						t.Fatalf("C03: a component list with a malformed entry was accepted")
+					}
+				}
+			}
 		}
 		alg := rapid.SampledFrom(icose.AllAlgs).Draw(t, "alg")
 		kp := keyFor(alg, rapid.IntRange(0, 5).Draw(t, "key"))
